@@ -167,13 +167,14 @@ def _run_job(case, budget, _patched, _barrier, _lock):
             if not started:
                 raise HarnessError("startprint refused")
             t0 = time.time()
-            last_progress = (-1, -1)
+            last_progress = (-1, -1, -1)
             last_change = time.time()
             status = "ok"
             while True:
                 with fw.lock:
-                    prog = (len(fw.rx), len(fw.accepted))
                     pend = len(fw.out)
+                    # replies still being read by the sender are activity too
+                    prog = (len(fw.rx), len(fw.accepted), pend)
                 if prog != last_progress:
                     last_progress = prog
                     last_change = time.time()
@@ -224,7 +225,7 @@ def in_known_class(case):
         return False
     k = len(acc)
     tx_k = [t for t in fw.transmissions if t[1] == k]
-    return bool(tx_k) and tx_k[-1][3]
+    return bool(tx_k) and bool(tx_k[-1][3])
 
 
 def check(case, cl=None):
@@ -270,7 +271,7 @@ def _judge(case, result, cl):
                 raise Violation(f"wrong checksum in {line!r}")
     # numbering: first transmission of each new line carries the next number
     seen = -1
-    for (idx, n, body, corrupted, good) in fw.transmissions:
+    for (idx, n, body, corrupted, good, _st) in fw.transmissions:
         if n > seen + 1:
             raise Violation(f"line numbers skip from {seen} to {n} "
                             f"(transmission #{idx} N{n} {body!r}); {job_desc}")
@@ -292,7 +293,10 @@ def _judge(case, result, cl):
         # the first transmission with number <= r
         hit = next((t for t in later if t[1] <= r), None)
         if hit is None:
-            if status == "stalled" or len(fw.accepted_numbers) < len(expected):
+            # a request for the number after the last job line (the firmware's
+            # answer to a duplicate of an accepted line) has nothing to serve
+            if r < len(expected) and (status == "stalled"
+                                      or len(fw.accepted_numbers) < len(expected)):
                 raise Violation(f"resend of line {r} was requested after transmission #{at} "
                                 f"but never served; {job_desc}")
         elif hit[1] != r:
@@ -319,7 +323,7 @@ def _judge(case, result, cl):
             cl.add("consecutive_corruption")
         # corrupted resend: a corrupted transmission whose number was sent before
         firsts = set()
-        for (idx, n, body, corrupted, good) in fw.transmissions:
+        for (idx, n, body, corrupted, good, _st) in fw.transmissions:
             if corrupted and n in firsts:
                 cl.add("corrupted_resend")
             firsts.add(n)
@@ -327,6 +331,10 @@ def _judge(case, result, cl):
             cl.add("corruption_on_last_line")
     if any(case["lat"]):
         cl.add("latency>0")
+    if len(fw.resend_requests) > 5 * max(1, len(expected)):
+        # sender and firmware ping-pong duplicates/resend requests for a while;
+        # allowed by the property as long as the end state is right
+        cl.add("resend_storm")
     cl.add("dialect:" + case["dialect"])
     return "ok"
 
